@@ -2,7 +2,9 @@
 (* Validates recorded executions of the real Worker loops (mbt/bind/batchworker.py; detsched with EXACT virtual time)   *)
 (* against BatchWorker.  Logged: arrivals (with time), read-lock traffic, gets from the input queue, puts/gets on the    *)
 (* batch buffer (with time), what `call` received and when, short-circuits to the output queue.  Silent: the collector's *)
-(* pure tests, the consumer closing a batch, and the passing of time (Tick - only when nothing else can move).           *)
+(* pure tests (incl. the test for room at the top of its loop and the wait for room), the consumer closing a batch, the   *)
+(* return of `call` (a slow call: `dur` ticks, known from the header) and the passing of time (Tick - only when nothing   *)
+(* else can move).                                                                                                       *)
 EXTENDS BatchWorker, Json, IOUtils, TLCExt
 
 TraceLog == JsonDeserialize(IOEnv.TRACE_FILE)
@@ -20,7 +22,8 @@ LastOf(s) == s[Len(s)]
 TraceInit ==
   \E t \in 1..Len(TraceLog) :
      /\ tid = t /\ l = 1
-     /\ InitWith([b |-> TraceLog[t].p.b, w |-> TraceLog[t].p.w, arr |-> TraceLog[t].p.arr])
+     /\ InitWith([b |-> TraceLog[t].p.b, w |-> TraceLog[t].p.w, arr |-> TraceLog[t].p.arr,
+                  slow |-> {TraceLog[t].p.slow[i] : i \in 1..Len(TraceLog[t].p.slow)}, dur |-> TraceLog[t].p.dur])
      /\ TLCSet(t, <<1, "init", "none">>)
 
 TArrive  == Is("Arrive") /\ Arrive /\ nextArr = E.id /\ now = E.t /\ Adv
@@ -56,7 +59,8 @@ TCall    == /\ Is("Call") /\ now = E.t
 TRes     == Is("Res") /\ E.same /\ E.id \in Called /\ Same /\ Adv
 TAllDone == Is("AllDone") /\ AllDone /\ E.leftover = 0 /\ Same /\ Adv
 
-TSilent  == /\ \/ \E w \in Wk : CMore(w) \/ (CDecide(w) /\ rlock' = rlock) \/ GClose(w) \/ GSetFlag(w)
+TSilent  == /\ \/ \E w \in Wk : CTop(w) \/ CToWait(w) \/ CMore(w) \/ (CDecide(w) /\ rlock' = rlock) \/ GClose(w) \/ GSetFlag(w)
+                                  \/ GReturn(w)
                \/ Tick
             /\ Silent
 
